@@ -133,4 +133,109 @@ def connStep (c : Conn) : Op → Conn × List Ev
     let r := remoteRemove c.rset l
     ({ c with rset := r.1, rfold := applyEvs c.rfold r.2, reported := reportFold c.reported false l }, r.2)
 
+
+/-! ## `Connection::poll` granularity (end-to-end correspondence with the real `Connection`)
+
+The probe handler's behaviour is scripted: `steps` are consumed one per `ConnectionHandler::poll`
+call, `onEv` one per Local/RemoteProtocolsChange event received (a handler may change what it
+advertises inside `poll`, inside `on_connection_event`, or in `on_behaviour_event`). -/
+
+inductive Step where
+  /-- (change the advertised set, then) return `Pending` -/
+  | pend (set : Option (List Name))
+  /-- (change the advertised set, then) return `NotifyBehaviour` -/
+  | event (set : Option (List Name))
+  /-- `ReportRemoteProtocols(Added)` -/
+  | radd (l : List Name)
+  /-- `ReportRemoteProtocols(Removed)` -/
+  | rrem (l : List Name)
+
+/-- an event received by the handler: local (`true`) or remote protocols change -/
+abbrev HEv := Bool × Ev
+
+structure PC where
+  lmap : LMap := []
+  rset : List Name := []
+  /-- what `listen_protocol()` advertises now -/
+  adv : List Name := []
+  steps : List Step := []
+  onEv : List (Option (List Name)) := []
+  lfold : List Name := []
+  rfold : List Name := []
+  reported : List Name := []
+  /-- events received / remote reports emitted during the current op -/
+  log : List HEv := []
+  emitted : List (Bool × List Name) := []
+
+def setAdv (c : PC) : Option (List Name) → PC
+  | none => c
+  | some l => { c with adv := l }
+
+/-- the handler receives one event: it folds it, and its `on_connection_event` script may change the
+advertised set -/
+def deliver (isLocal : Bool) (c : PC) (e : Ev) : PC :=
+  let c1 : PC := if isLocal then { c with lfold := applyEv c.lfold e, log := c.log ++ [(true, e)] }
+                 else { c with rfold := applyEv c.rfold e, log := c.log ++ [(false, e)] }
+  match c1.onEv with
+  | [] => c1
+  | s :: r => setAdv { c1 with onEv := r } s
+
+def deliverAll (isLocal : Bool) (c : PC) (evs : List Ev) : PC := evs.foldl (deliver isLocal) c
+
+inductive PRes where
+  | pending | event | fuel
+  deriving DecidableEq, Repr
+
+/-- the bottom of the loop: diff the advertised set against `local_supported_protocols`; `true` = the
+handler was notified and the loop `continue`s -/
+def bottomStep (c : PC) : PC × Bool :=
+  let x := fromFullSets c.lmap c.adv
+  if x.2.isEmpty then ({ c with lmap := x.1 }, false)
+  else (deliverAll true { c with lmap := x.1 } x.2, true)
+
+/-- the `loop` of `Connection::poll`, as far as protocols are concerned -/
+def ploop : Nat → PC → PC × PRes
+  | 0, c => (c, .fuel)
+  | fuel + 1, c =>
+    match c.steps with
+    | .event s :: r => (setAdv { c with steps := r } s, .event)
+    | .radd l :: r =>
+      let x := remoteAdd c.rset l
+      ploop fuel (deliverAll false { c with steps := r, rset := x.1, reported := reportFold c.reported true l,
+                                            emitted := c.emitted ++ [(true, l)] } x.2)
+    | .rrem l :: r =>
+      let x := remoteRemove c.rset l
+      ploop fuel (deliverAll false { c with steps := r, rset := x.1, reported := reportFold c.reported false l,
+                                            emitted := c.emitted ++ [(false, l)] } x.2)
+    | .pend s :: r =>
+      let b := bottomStep (setAdv { c with steps := r } s)
+      if b.2 then ploop fuel b.1 else (b.1, .pending)
+    | [] =>
+      let b := bottomStep c
+      if b.2 then ploop fuel b.1 else (b.1, .pending)
+
+inductive POp where
+  | steps (l : List Step)
+  | onEv (l : List (Option (List Name)))
+  | beh (l : List Name)
+  | poll
+
+/-- `Connection::new` -/
+def pinit (l : List Name) : PC :=
+  let r := initLocal l
+  { lmap := r.1, adv := l, lfold := applyEvs [] r.2, log := r.2.map (true, ·) }
+
+def pstep (c0 : PC) (o : POp) : PC × Option PRes :=
+  let c := { c0 with log := [], emitted := [] }
+  match o with
+  | .steps l => ({ c with steps := c.steps ++ l }, none)
+  | .onEv l => ({ c with onEv := c.onEv ++ l }, none)
+  | .beh l => ({ c with adv := l }, none)
+  | .poll => let r := ploop (c.steps.length + c.onEv.length + 3) c; (r.1, some r.2)
+
+/-- an event is a real notification: non-empty, and not a no-op on the handler's current view -/
+def realEvent (fold : List Name) : Ev → Bool
+  | .added l => !l.isEmpty && l.all (fun p => !fold.contains p)
+  | .removed l => !l.isEmpty && l.all (fun p => fold.contains p)
+
 end C11
